@@ -1,3 +1,4 @@
+import Ebu.Spec.Flow
 import Ebu.Props.C03
 import Ebu.Spec.Conc
 import Ebu.Proofs.Conc
@@ -46,5 +47,13 @@ theorem seq_mutex (progs : List (List Op)) (s : Sys) (h : Reachable progs s) (ri
 and updates `shard.handlers` inside one write-locked critical section (fact table regenerated on every run) -/
 theorem registry_steps_atomic : Ebu.Locks.RegistryOpsAtomic Ebu.Generated.accessFacts = true :=
   Ebu.Props.C03.facts_registry_ops_atomic
+
+/-! ### obligations on the control flow of the CURRENT source (`Ebu/Generated/Flow.lean`, regenerated from /repo on every run) -/
+
+/-- OBLIGATION: the snapshot step of M2 is one read-locked copy, released before dispatch -/
+theorem flow_snapshot_under_read_lock : Ebu.Flow.publishPrelude = true := by decide +kernel
+
+/-- OBLIGATION: the retirement step of M2 removes exactly the claimed registrations (pointer identity) inside one write-locked section after the loop -/
+theorem flow_retire_by_identity : Ebu.Flow.retireByIdentity = true := by decide +kernel
 
 end Ebu.Props.C02
